@@ -1,7 +1,8 @@
-\* quick exhaustive config: snaps a, b (+ snapd), at most 3 changes
+\* quick exhaustive config: snaps a, b (+ snapd), at most 2 changes (every request against every single in-progress change, incl. partially finished ones)
 CONSTANTS
   Snaps <- MCSnaps2
-  MaxChanges = 3
+  MaxChanges = 2
+  WithPartial = TRUE
 INIT Init
 NEXT Next
 CHECK_DEADLOCK FALSE
